@@ -101,6 +101,10 @@ def run(ctx, widen=False):
                 "ports+directions, connections, resources+types, repetition kind); non-trivial = >=3 nodes containing a repetition wrapper or a pass-through")
     base = ctx.seed * 1000003 + 3500000
     pipeline.run_stream(ctx, __name__, range(base, base + n), extra={"p_rep": 0.25, "p_passthrough": 0.3})
+    # second family (structure only): ports whose declared size is the bare name of one of the routine's own local variables,
+    # parameters named like resources, empty registers — shapes on which a value-level reading is ambiguous but the structure is not
+    pipeline.run_stream(ctx, __name__, range(base + 60000, base + 60000 + n // 2),
+                        extra={"p_rep": 0.2, "p_passthrough": 0.3, "p_port_local_clash": 0.3, "p_zero_size": 0.15, "p_through": 0.3})
 
 
 def replay(payload):
